@@ -39,8 +39,9 @@ def _setup_diverged(sess, R, M):
 
 
 def _is_app(sess):
-    """`NEW app` sessions (harness/app.go, Driver/App.lean): a whole application behind Flame.ServeHTTP"""
-    return bool(sess) and sess[0].split()[:2] == ["NEW", "app"]
+    """`NEW app` sessions (harness/app.go, Driver/App.lean): a whole application behind Flame.ServeHTTP — and
+    `NEW dsl` sessions (harness/dsl.go): routes declared through Group/Combo/Routes/Any; both compared line by line"""
+    return bool(sess) and sess[0].split()[:2] in (["NEW", "app"], ["NEW", "dsl"])
 
 
 def cmp_dispatch(sess, R, M, params=False, chains=False, setup=False, urls=False):
